@@ -190,6 +190,8 @@ structure St where
                                            -- Rust's move semantics; in the model by the `owned` flag)
   reEnabled : Bool := false                -- a timer that still held a registration was registered again (`enable` of
                                            -- a source that is not disabled: outside `enable`'s contract)
+  fdClash : Bool := false                  -- a source object was created over an fd that an earlier object watches or
+                                           -- watched (two sources over one fd: the situation of finding F15)
   deriving Repr
 
 abbrev M := EStateM Exc St
@@ -620,12 +622,25 @@ def execC' (o : COp) : M Unit := do
   | .dropIdle i => modify fun s => { s with idleHandles := s.idleHandles.filter (·.1 != i) }
   | .churn n => modify fun s => { s with slots := churnSlots n s.slots }
 
+/-- the fds of the sub-sources a `new*` operation creates -/
+def newFds : COp → List Nat
+  | .newPing k | .newChan k | .newSync k _ => [100000 + k]
+  | .newGen _ fd _ _ _ => [fd]
+  | .newCustom k nsub _ => (List.range nsub).map fun j => 1000 * k + j
+  | _ => []
+
+/-- the fds of the sub-sources of every source object created so far (dropped ones included) -/
+def allFds (s : St) : List Nat := s.srcs.flatMap fun p => p.2.gens.map (·.fd)
+
 /-- a source id names one object for the whole case -/
 def execC (o : COp) : M Unit := do
   emit (.exec o)
   match isNew o with
   | some k =>
-    if (alookup (← get).srcs k).isSome then emit (.opRes o .exists) else execC' o
+    if (alookup (← get).srcs k).isSome then emit (.opRes o .exists) else
+      -- ghost: does the new object share an fd with an earlier one (or with itself)?
+      modify fun s => { s with fdClash := s.fdClash || !(newFds o).Nodup || (newFds o).any (allFds s).contains }
+      execC' o
   | none => execC' o
 
 /-! ### callbacks -/
